@@ -194,38 +194,24 @@ pub fn run_stress(st: &Stress) -> Report {
             parked.push(f);
         }
     }
-    let start = Arc::new(std::sync::Barrier::new(st.threads));
-    let handles: Vec<_> = (0..st.threads)
-        .map(|_| {
-            let mut svc = base.clone();
-            let iters = st.iters;
-            let start = start.clone();
-            std::thread::spawn(move || {
-                let rt = tokio::runtime::Builder::new_current_thread().enable_time().build().unwrap();
-                let _g = rt.enter();
-                let waker = futures::task::noop_waker();
-                let mut cx = std::task::Context::from_waker(&waker);
-                start.wait();
-                for _ in 0..iters {
-                    if !matches!(svc.poll_ready(&mut cx), std::task::Poll::Ready(Ok(()))) {
-                        continue;
-                    }
-                    let mut f = Box::pin(svc.call(false));
-                    // first poll: admission (or rejection / queueing) and, if admitted, entry
-                    if f.as_mut().poll(&mut cx).is_pending() {
-                        let _ = f.as_mut().poll(&mut cx);
-                    }
-                    drop(f);
-                }
-            })
-        })
-        .collect();
-    let mut panicked = None;
-    for h in handles {
-        if let Err(p) = h.join() {
-            panicked = Some(sim::panic_msg(&p));
+    let iters = st.iters;
+    let proto = std::sync::Mutex::new(base.clone());
+    let panicked = crate::stress::run_threads(st.threads, move |_| {
+        let mut svc = proto.lock().unwrap().clone();
+        let waker = futures::task::noop_waker();
+        let mut cx = std::task::Context::from_waker(&waker);
+        for _ in 0..iters {
+            if !matches!(svc.poll_ready(&mut cx), std::task::Poll::Ready(Ok(()))) {
+                continue;
+            }
+            let mut f = Box::pin(svc.call(false));
+            // first poll: admission (or rejection / queueing) and, if admitted, entry
+            if f.as_mut().poll(&mut cx).is_pending() {
+                let _ = f.as_mut().poll(&mut cx);
+            }
+            drop(f);
         }
-    }
+    });
     let pk = peak.load(Ordering::SeqCst);
     if pk > st.max {
         r.fail(format!(
